@@ -35,7 +35,12 @@ def evaluate(run, model, drv, cases, lines):
         if o.startswith("CRASH") or o.startswith("<not") or o.startswith("ERROR"):
             continue
         if c.proto == "dtls":
+            amb = gen_tls.sendq_order_ambiguous(o)
+            if amb:
+                run.cov["acceptor_skipped_sendq_order"] = run.cov.get("acceptor_skipped_sendq_order", 0) + 1
             for nm, s in gen_tls.sessions_of(c, o):
+                if amb and nm == "c":
+                    continue
                 tgs_lines.append(s.line(c.proto))
                 owner.append((i, nm, s))
     verdicts = vlib.run_lines_robust(model, tgs_lines)[0] if tgs_lines else []
@@ -162,13 +167,16 @@ def main(run):
 
     # 2. sessions: corpus first, then generated
     r = tie.rng_for(run, "c19")
-    n = 250 if run.tier == "quick" else 6000
+    n = 3000 if run.tier == "quick" else 40000
     cases = []
     for ln in vlib.read_corpus("C19"):
         c = gen_tls.parse_case_line(ln)
         c.kind = "corpus"
         cases.append(c)
     cases += gen_tls.gen_cases(r, n, run.tier)
+    if run.tier == "thorough":
+        for k in (2, 3):      # further derived seeds for the random part
+            cases += gen_tls.gen_random(tie.rng_for(run, "c19/%d" % k), n)
     lines = [c.line() for c in cases]
     outs, cred, fails = evaluate(run, model, drv, cases, lines)
     for i, (c, o) in enumerate(zip(cases, outs)):
@@ -200,3 +208,15 @@ def main(run):
         run.violation(what, "case: %s\nkind: %s\nwhat: %s\ntrace:\n%s\n" % (c.line(), cases[i].kind, what, o2.replace(" |", "\n|")),
                       tag="%s%d" % (tag, len(seen)), no_input=no_input)
     run.cov["failures"] = len(fails)
+
+    # 3. thorough: the same cases under ASan+UBSan (the DTLS path frees and re-creates TLS
+    # contexts on every failure path); a sanitizer report is a broken tie, not a C19 verdict
+    if run.tier == "thorough":
+        adrv = vlib.build_driver("h_tls", ["h_tls.c"], variant="asan", wraps=WRAPS)
+        sub = lines[:20000]
+        aouts, acr = vlib.run_lines_robust(adrv, sub, timeout=1500, env={"ASAN_OPTIONS": "detect_leaks=0"})
+        run.cov["asan_cases"] = len(sub)
+        run.cov["asan_reports"] = len(acr)
+        for i, rc, err in acr[:2]:
+            run.violation("sanitizer report / crash of the instrumented driver (rc=%d)" % rc,
+                          "case: %s\n%s\n" % (sub[i], err), tag="asan%d" % i, no_input=True)
